@@ -565,6 +565,19 @@ pub fn c13(seed: u64, thorough: bool) -> Scenario {
     b.boots(0);
     let txs = b.r.range(20, 120) as usize;
     b.load(txs, 200_000, load_end, (16, 400), 3);
+    // Burst (a client load pattern): many transactions, each a batch of its own, within a few
+    // tens of milliseconds - more outstanding batch digests than a leader rotation of small
+    // blocks could carry; all of them must still be committed everywhere.
+    if b.r.chance(0.3) {
+        let bs = b.r.range(100, 200) as usize;
+        for p in b.sc.params.iter_mut() {
+            p.batch_size = bs;
+        }
+        let count = b.sc.n * b.r.range(40, 100) as usize;
+        let t0 = b.r.range(600_000, load_end - 300_000);
+        let t1 = t0 + b.r.range(1_000, 60_000);
+        b.load(count, t0, t1, (bs as u64 + 10, bs as u64 + 80), 3);
+    }
     let all = b.all_nodes();
     // A node misses batch broadcasts: its mempool links are cut for a while (batches to it are
     // cancelled once a quorum acknowledged them), possibly also towards the proposer afterwards.
